@@ -113,7 +113,11 @@ class Scenario:
             # before Open(): Open() installs the defaults; stay away from stored values equal to the defaults (they would not be re-installed)
             if off in (DEF_OFFSET, KEEP):
                 off = 7
-        self.ops.append('H %d %d' % (iv, off) + ('' if idev is None else ' %d' % idev))
+        if off == KEEP and self.r.random() < 0.5:
+            # the deprecated alias SetHeartbeatInterval(interval, SetAsDefault, iDev) = "this interval, offset unchanged" (seed C12-12)
+            self.ops.append('Q hi %d %d' % (iv, -1 if idev is None else idev))
+        else:
+            self.ops.append('H %d %d' % (iv, off) + ('' if idev is None else ' %d' % idev))
         for i in targets(idev, self.ndev):
             p, o = resolve(iv, off, self.cfg[i][0], self.cfg[i][1])
             if p == 0:
@@ -513,6 +517,8 @@ def _oracle(case, res, sync_deltas):
     if len(per_op) != len(ops):
         return 'format:%d operations, %d result groups' % (len(ops), len(per_op))
     cfg.setdefault('t0', 0)
+    # the deprecated alias is the setter with "offset unchanged"
+    ops = [(['H', o[2], str(KEEP)] + ([o[3]] if len(o) > 3 and o[3] != '-1' else [])) if (len(o) >= 3 and o[0] == 'Q' and o[1] == 'hi') else o for o in ops]
 
     def sent_later(k, i):
         return any(_is_hb(e) and (e[1] & 0xff) == cfg['src'] + i for evs in per_op[k + 1:] for e in evs)
@@ -565,13 +571,40 @@ def check(run, replay=None):
                        '262..300 polls so that the sequence passes 252 -> 0.  Model and C++ (both scheduler builds) are compared on every frame and the final state incl. next time/period/offset/sequence; the '
                        'oracle is an abstract per-device scheduler (grid = open time + offset + n x period, fire at the first poll strictly after the grid point) that also checks priority, '
                        'identifier, payload, interval field = period/10 and the sequence 0..252.  non-trivial = distinct case')
-    for fs in (() if (replay and any(l.startswith('# family: hb-gf-') for l in open(replay))) else ('w64', 'w32')):
+    for fs in (() if (replay and any(l.startswith('# family: hb-gf-') or l.startswith('# family: hb-null-') for l in open(replay))) else ('w64', 'w32')):
         vlib.correspond(run, 'hb-' + fs, 'h_node', fs, 'NODE', cases, oracle_for(fs) or oracle, None, known=known, model_args=[fs])
+    # a device that lost every address (null address 254) has no claimed address: it sends no heartbeat (seed C12-10).  Cases: the
+    # address-exhaustion histories of the C04 development (252 lower-NAME claims, then the heartbeat comes due); the sibling devices go on
+    nreplay = bool(replay) and any(l.startswith('# family: hb-null-') for l in open(replay))
+    if nreplay or not replay:
+        import c04_gen
+        ncases = []
+        if nreplay:
+            ncases = cases
+        else:
+            c04_gen.gen_null(random.Random(run.seed * 7919 + 112), ncases, run.tier != 'quick')
+            ncases = [c for c in ncases if ' hb=1' in c]
+
+        def null_oracle(case, res):
+            if res.startswith('crash'):
+                return 'memory:' + res
+            if res.startswith('bad'):
+                return None
+            per_op, _state = parse_result(res)
+            for k, evs in enumerate(per_op):
+                for e in evs:
+                    if _is_hb(e) and (e[1] & 0xff) > 251:
+                        return 'no-address-sent:op %d: heartbeat %x from source %d, which is not a claimed address' % (k, e[1], e[1] & 0xff)
+            return None
+        for fs in ('w64', 'w32'):
+            vlib.correspond(run, 'hb-null-' + fs, 'h_node', fs, 'NODE', ncases, null_oracle, None, model_args=[fs])
+        if nreplay:
+            return
     # heartbeats forced by request group functions on multi-device nodes (each device with its own interval): cases and oracle of the C09
     # development, model with the library's group function handlers
     greplay = bool(replay) and any(l.startswith('# family: hb-gf-') for l in open(replay))
     if greplay or not replay:
-        import random, p_C09
+        import p_C09
         gcases = cases if greplay else p_C09.hb_per_device_cases(random.Random(run.seed * 7919 + 12), run.tier != 'quick')
         for fs in ('w64', 'w32'):
             vlib.correspond(run, 'hb-gf-' + fs, 'h_node', fs, 'NODEGF', gcases, p_C09.oracle, p_C09.nontrivial, known=p_C09.known, model_args=[fs])
